@@ -177,17 +177,74 @@ M_C09(pre, a, obs, post) ==
     : tt \in Topics }
   \cup (IF IsReq(a) /\ a.a = "Note" THEN If(obs.nack = 0, "NotesAreNeverAnswered") ELSE {})
 
+\* ------------------------------------------------------------------ C04: history and deletion are exact
+RowIds(r) == r.low..(r.hi - 1)
+SoftDel(S, t, u) == UNION {RowIds(S.dlog[t][i]) : i \in {j \in DOMAIN S.dlog[t] : S.dlog[t][j]["for"] = u}}
+HardDel(S, t) == {S.msgs[t][i].seq : i \in {j \in DOMAIN S.msgs[t] : S.msgs[t][j].delId # 0}}
+MsgBySeq(S, t, n) == S.msgs[t][CHOOSE i \in DOMAIN S.msgs[t] : S.msgs[t][i].seq = n]
+Visible(S, t, u) == (Seqs(S, t) \ HardDel(S, t)) \ SoftDel(S, t, u)
+\* the `k` largest elements of a finite set of integers
+RECURSIVE Newest(_, _)
+Newest(X, k) == IF k = 0 \/ X = {} THEN {} ELSE LET m == CHOOSE x \in X : \A y \in X : y <= x IN {m} \cup Newest(X \ {m}, k - 1)
+
+M_C04(pre, a, obs, post) ==
+  IF ~IsReq(a) THEN {} ELSE
+  LET t == a.t  u == Actor(a)
+      row == pre.subs[t][u]
+      mode == IF row.st = "live" THEN Eff(row) ELSE {}
+      attached == t \in M(pre.sess[a.s].subs)
+      existing == Seqs(pre, t)
+  IN
+  IF a.a = "DelMsg" THEN
+     LET last == pre.topics[t].seq
+         \* the union the request lists: [low,hi) clipped to existing ids; hi = 0 or hi = low means the single id low
+         req == UNION {LET lo == a.ranges[i][1]  hi == a.ranges[i][2] IN
+                       (IF hi = 0 \/ hi = lo THEN {lo} ELSE lo..(hi - 1)) : i \in DOMAIN a.ranges} \cap existing
+         hard == a.hard /\ "D" \in mode
+         others == Users \ {u}
+     IN
+     (IF Accepted(obs) THEN
+        If(obs.ackDel = pre.topics[t].delId + 1 /\ post.topics[t].delId = obs.ackDel, "DeleteGetsNextTransactionNumber")
+        \cup If(~hard => HardDel(post, t) = HardDel(pre, t), "SoftDeleteErasesNothing")
+        \cup If(~hard => SoftDel(post, t, u) \cap existing = (SoftDel(pre, t, u) \cup req) \cap existing, "SoftDeleteHidesExactlyTheUnionForRequester")
+        \cup If(\A v \in others : SoftDel(post, t, v) = SoftDel(pre, t, v), "OthersSoftDeletionsUntouched")
+        \cup If(hard => HardDel(post, t) = HardDel(pre, t) \cup (req \ SoftDel(pre, t, "nobody")), "HardDeleteHidesExactlyTheUnionForEveryone")
+        \cup If(hard => \A n \in req : MsgBySeq(post, t, n).content = "null", "HardDeleteErasesContent")
+        \cup If(\A n \in existing \ req : MsgBySeq(post, t, n) = MsgBySeq(pre, t, n), "UnlistedMessagesUntouched")
+        \cup If(Seqs(post, t) = existing, "DeletionKeepsTheIdSpace")
+      ELSE If(post.msgs[t] = pre.msgs[t] /\ post.dlog[t] = pre.dlog[t] /\ post.topics[t].delId = pre.topics[t].delId, "RejectedDeleteChangesNothing"))
+     \cup If(Accepted(obs) => attached /\ ("R" \in mode \/ "D" \in mode), "DeleteNeedsReadOrDeletePermission")
+  ELSE IF a.a = "Get" /\ a.what = "data" THEN
+     LET before == IF a.before = 0 THEN pre.topics[t].seq + 1 ELSE a.before
+         inRange == {n \in Visible(pre, t, u) : a.since <= n /\ n < before}
+         limit == IF a.limit = 0 THEN 1024 ELSE a.limit
+         expect == IF attached /\ "R" \in mode THEN Newest(inRange, limit) ELSE {}
+         got == {d \in obs.data : d.s = a.s}
+     IN If({d.seq : d \in got} = expect, "HistoryIsExactlyTheVisibleMessagesInRange")
+        \cup If(\A d \in got : d.seq \in existing => d.content = MsgBySeq(pre, t, d.seq).content /\ d.from = MsgBySeq(pre, t, d.seq).from, "HistoryShowsWhatWasPublished")
+        \cup If(Cardinality(got) <= limit /\ obs.ndata[a.s] = Cardinality(got), "HistoryRespectsLimitNoDuplicates")
+        \cup If(\A d \in obs.data : d.s = a.s, "HistoryGoesToRequesterOnly")
+  ELSE IF a.a = "Get" /\ a.what = "del" THEN
+     LET mine == {i \in DOMAIN pre.dlog[t] : pre.dlog[t][i]["for"] \in {u, "all"} /\ pre.dlog[t][i].delId >= a.since
+                                              /\ (a.before = 0 \/ pre.dlog[t][i].delId < a.before)}
+         expect == UNION {RowIds(pre.dlog[t][i]) : i \in mine}
+         got == {d \in obs.delmeta : d.s = a.s}
+     IN If(attached /\ "R" \in mode /\ expect # {} => \E d \in got : d.ids = expect, "DeletionLogCoversExactlyWhatWasDeletedForUser")
+        \cup If(~(attached /\ "R" \in mode) \/ expect = {} => got = {}, "NoDeletionLogWithoutReadOrDeletions")
+  ELSE {}
+
 Monitors(p, pre, a, obs, post) ==
   CASE p = "C01" -> M_C01(pre, a, obs, post)
     [] p = "C02" -> M_C02(pre, a, obs, post)
     [] p = "C03" -> M_C03(pre, a, obs, post)
+    [] p = "C04" -> M_C04(pre, a, obs, post)
     [] p = "C06" -> M_C06(pre, a, obs, post)
     [] p = "C07" -> M_C07(pre, a, obs, post)
     [] p = "C08" -> M_C08(pre, a, obs, post)
     [] p = "C09" -> M_C09(pre, a, obs, post)
     [] OTHER -> {}
 
-AllProps == {"C01", "C02", "C03", "C06", "C07", "C08", "C09"}
+AllProps == {"C01", "C02", "C03", "C04", "C06", "C07", "C08", "C09"}
 \* tagged: "C06:ExactlyOneEffectiveOwner"
 Tagged(pre, a, obs, post, props) == UNION {{p \o ":" \o n : n \in Monitors(p, pre, a, obs, post)} : p \in props}
 =============================================================================
